@@ -76,7 +76,7 @@ def _cs(W, sizes, dem, rng, **kw):
          "bp_max_iter": rng.choice([50, 50, 50, 1000, None, None, 3, 1]),
          "bp_max_nodes": rng.choice([None] * 8 + [1, 2, 4, 8]), "float_width": rng.random() < 0.15,
          # roll_width is a float in the API: a fractional width with integer pieces is the same problem as its floor
-         "frac": rng.choice([0.5, 0.75, 0.99, 0.25, 0.6]) if rng.random() < 0.2 else 0}
+         "frac": rng.choice([0.5, 0.75, 0.99, 0.25, 0.6, 0.995, 0.9951, 0.999, 0.996]) if rng.random() < 0.25 else 0}
     c.update(kw)
     return c
 
